@@ -50,6 +50,10 @@ def networks(tags, names=None):
     out["order4"] = lambda: RDNetwork(
         species=[sp("A"), sp("B"), sp("C")],
         reactions=[Reaction("2 A + 2 B -> C", kf={"e0": t(), "e1": t()})], environments=envs)
+    # one species with coefficient 4 on the consuming side of each direction (x^4, and 4 molecules produced / consumed per event)
+    out["quad"] = lambda: RDNetwork(
+        species=[sp("A"), sp("B")],
+        reactions=[Reaction("4 A -> B", kf=t(), kr={"e0": t(), "e1": t()})], environments=envs)
     out["none"] = lambda: RDNetwork(species=[sp("A"), sp("B", Dz=True)], reactions=[], environments=envs)
     out["chstt_B"] = lambda: RDNetwork(
         species=[sp("A"), sp("B", chstt={"e1": True}), sp("C", chstt=False)],
@@ -113,7 +117,7 @@ MULTI_GRAPHS = [("graph", "selfloop"), ("graph", "parallel")]
 THOROUGH_GRIDS = QUICK_GRIDS + [("grid", 1, 1, 2, 3), ("grid", 2, 2, 2, 7), ("grid", 2, 2, 2, 0), ("grid", 3, 2, 1, 5),
                                 ("grid", 1, 3, 1, 2), ("grid", 2, 1, 2, 6), ("grid", 1, 1, 1, 7), ("grid", 4, 1, 1, 1)]
 NETS_QUICK = ["AB_rev", "ABC_bi", "dimer_source", "order3_repeat", "none"]
-NETS_ALL = NETS_QUICK + ["order4", "chstt_B"]
+NETS_ALL = NETS_QUICK + ["order4", "chstt_B", "quad"]
 
 
 def pairs(tier, seed=0, engine_multigraph=False):
@@ -127,6 +131,8 @@ def pairs(tier, seed=0, engine_multigraph=False):
             out.append((netname, spaces[k % len(spaces)]))
             out.append((netname, spaces[(k + 5) % len(spaces)]))
         out.append(("order4", ("grid", 2, 1, 1, 0)))
+        out.append(("quad", ("grid", 2, 1, 1, 1)))
+        out.append(("quad", ("graph", "pair")))
         out.append(("chstt_B", ("grid", 2, 1, 1, 1)))
         out.append(("chstt_B", ("graph", "pair")))
         # rate constants that are zero in ONE environment only, on a graph where a node of that environment comes AFTER an active one
